@@ -8,6 +8,11 @@
 (* (may be nil).  A handler is a PROGRAM: a sequence of operations         *)
 (*    "W" WriteHeader   "N" c.Next()   "C" cancel the request context      *)
 (*    "P" panic          "R" c.Map(custom ReturnHandler) on the request     *)
+(*    (harness and trace specification only: "U" puts the original request *)
+(*    back after "C" had installed and cancelled a derived context - event *)
+(*    uncancel; "W" stands for any way of starting the response:           *)
+(*    WriteHeader / Write / empty Write / Flush / io.Copy - event write    *)
+(*    with the implicit status and the bytes)                              *)
 (* (the response body is kept as the sequence of chunks written)           *)
 (* followed by a return value (a record, see Render).  kind = "rec" is     *)
 (* flamego.Recovery(), kind = "inj" a handler whose parameter cannot be    *)
